@@ -769,13 +769,16 @@ struct Lower {
   bool inStep = false; int stepNest = 0;
   void maybeOutline(const Stmt* Loop, const Expr* Cond, const Stmt* Body, const Expr* Inc, int ord) {
     if (inStep) return;
-    for (auto& R : outlineReqs) if (!R.done && R.fn == fnName[curFn] && R.ord == ord) {
+    for (auto& R : outlineReqs) if (!R.done && (R.fn == fnName[curFn] || R.fn == curFn->getQualifiedNameAsString()) && R.ord == ord) {
       R.done = true;
       // free variables: every local/param of the enclosing function referenced in the loop and declared outside it
       struct FV : RecursiveASTVisitor<FV> { std::vector<const VarDecl*> used; std::set<const VarDecl*> declared;
         bool VisitDeclRefExpr(DeclRefExpr* D) { if (auto* V = dyn_cast<VarDecl>(D->getDecl())) if (V->hasLocalStorage() && !std::count(used.begin(), used.end(), V)) used.push_back(V); return true; }
         bool VisitVarDecl(VarDecl* V) { declared.insert(V); return true; } } fv;
-      fv.TraverseStmt(const_cast<Stmt*>(Loop));
+      (void)Loop;
+      if (Cond) fv.TraverseStmt(const_cast<Expr*>(Cond));
+      fv.TraverseStmt(const_cast<Stmt*>(Body));
+      if (Inc) fv.TraverseStmt(const_cast<Expr*>(Inc));
       auto saved = varName; std::string params; bool hasSelf = false;
       if (auto* MD = dyn_cast<CXXMethodDecl>(curFn)) if (MD->isInstance()) { params = declare(MD->getThisType(), "self"); hasSelf = true; }
       (void)hasSelf;
@@ -888,6 +891,7 @@ struct Finder : RecursiveASTVisitor<Finder> {
   Lower& L; std::vector<const FunctionDecl*> found; std::set<std::string> hit;
   explicit Finder(Lower& l) : L(l) {}
   bool shouldVisitTemplateInstantiations() const { return true; }
+  bool shouldVisitImplicitCode() const { return true; }
   bool VisitFunctionDecl(FunctionDecl* D) {
     if (!D->doesThisDeclarationHaveABody() || D->isTemplated()) return true;
     if (D->isDefaulted() && !D->isUserProvided() && isa<CXXMethodDecl>(D) && !RootsMangled.size() && !Roots.size() && !RootPrefixes.size()) return true;
